@@ -1022,7 +1022,7 @@ type c20Op struct {
 	Run   func(ctx context.Context) error
 }
 
-var c20SimpleKinds = []string{"create", "create", "update", "update", "update", "delete", "create_many", "update_filter", "delete_filter",
+var c20SimpleKinds = []string{"create", "create", "update", "update", "update", "update_unchanged", "delete", "create_many", "update_filter", "delete_filter",
 	"gql_create_multi", "gql_update_filter", "gql_multi", "other_create", "other_update"}
 var c20InvalidKinds = []string{"invalid_create_duplicate", "invalid_create_unique", "invalid_update_deleted", "invalid_delete_missing",
 	"invalid_gql_type", "invalid_gql_multi_last_fails", "invalid_create_many_dup"}
@@ -1075,6 +1075,23 @@ func (h *c20Hist) genOp(kind string, exclude map[string]bool) (op c20Op, ok bool
 			for k, v := range patch {
 				core.Must(d.Set(k, v))
 			}
+			return h.col.Update(ctx, d)
+		}
+	case "update_unchanged":
+		// an update that carries no dirty field (Get followed by Update of the unchanged document):
+		// it still writes a new composite commit, which must be announced like any other
+		if len(live) == 0 {
+			return op, false
+		}
+		id := h.pick(live)
+		exclude[id] = true
+		op.Desc = id + " (no field changed)"
+		op.Run = func(ctx context.Context) error {
+			d, err := h.getDocErr(ctx, h.col, id)
+			if err != nil {
+				return err
+			}
+			h.r.Count("updates_without_a_changed_field", 1)
 			return h.col.Update(ctx, d)
 		}
 	case "delete":
@@ -2312,7 +2329,7 @@ func runC20(ctx context.Context, c core.Case, r *core.Rec) {
 
 func c20Cases(seed uint64, tier string) []core.Case {
 	var cs []core.Case
-	anchor := []string{"create", "create_many", "update", "gql_create_multi", "gql_multi", "other_create", "other_update", "update_filter",
+	anchor := []string{"create", "create_many", "update", "update_unchanged", "gql_create_multi", "gql_multi", "other_create", "other_update", "update_filter",
 		"invalid_create_duplicate", "invalid_create_unique", "invalid_gql_multi_last_fails", "invalid_create_many_dup", "invalid_delete_missing",
 		"fault:update", "fault:create_many", "fault:gql_multi", "commitfault:update", "commitfault:create",
 		"txn:commit", "txn:discard", "txn:failing-commit", "burst", "parallel", "delete", "update", "invalid_update_deleted", "delete_filter", "gql_update_filter", "burst"}
